@@ -10,6 +10,8 @@ CONSTANTS
  Foreign = FALSE
  KindOf <- K_acf
  LoadOf <- L_acf
+ Shutdowns = FALSE
+ CancelAware = TRUE
  ClearInputs = TRUE
 INVARIANT Inv_C03
 INVARIANT Inv_C07
